@@ -1574,3 +1574,246 @@ def iter_next(I, it):  # noqa: F811  (extends the dispatcher with the infinite `
     if type(it0) is IterV and it0.kind == 'repeat':
         return True, clone_value(I, it0.st['v'])
     return _old_iter_next(I, it)
+
+
+# ============================================================ additional models (added to widen what a changed tree may call)
+
+@model('bool::then')
+def bool_then(I, args, callee):
+    return some(I.call_value(args[1], [])) if I.decide(args[0]) else none()
+
+
+@model('bool::then_some')
+def bool_then_some(I, args, callee):
+    return some(args[1]) if I.decide(args[0]) else none()
+
+
+@model('TryFrom::try_from', 'TryInto::try_into', '<T as TryFrom>::try_from', '<T as TryInto>::try_into')
+def try_from_int(I, args, callee):
+    q = I.parse_qualified(callee)
+    if q and q[1]:
+        st = q[0].strip()
+        m = re.search(r'(?:TryFrom|TryInto)<([^<>]*)>', q[1])
+        ot = m.group(1).strip() if m else None
+        if ot:
+            src, dst = (ot, st) if 'TryFrom' in q[1] else (st, ot)
+            if src in INT_TYPES and dst in INT_TYPES:
+                v = args[0]
+                db, ds = INT_TYPES[dst]
+                sb, ss = INT_TYPES[src]
+                lo = -(1 << (db - 1)) if ds else 0
+                hi = (1 << (db - 1)) - 1 if ds else (1 << db) - 1
+                if type(v) is not Sym:
+                    return ok(v) if lo <= v <= hi else err(Opaque('TryFromIntError'))
+                W = max(sb, db) + 1
+                e = z3.SignExt(W - sb, v.e) if ss else z3.ZeroExt(W - sb, v.e)
+                fits = z3.And(e >= z3.BitVecVal(lo, W), e <= z3.BitVecVal(hi, W))
+                if I.decide(Sym(fits)):
+                    return ok(I.cast(v, src, dst, 'IntToInt'))
+                return err(Opaque('TryFromIntError'))
+    raise Unmodelled('TryFrom ' + callee)
+
+
+@model('Vec::split_off')
+def vec_split_off(I, args, callee):
+    v = deref(args[0])
+    at = conc_index(I, args[1], 'split_off index')
+    if at > len(v.elems):
+        raise PathEnd('panic', 'split_off: at > len')
+    tail = v.elems[at:]
+    del v.elems[at:]
+    return VecV(tail)
+
+
+@model('Vec::resize')
+def vec_resize(I, args, callee):
+    v = deref(args[0])
+    n = conc_index(I, args[1], 'resize length')
+    while len(v.elems) > n:
+        v.elems.pop()
+    while len(v.elems) < n:
+        v.elems.append(clone_value(I, args[2]))
+    return unit()
+
+
+@model('String::retain')
+def string_retain(I, args, callee):
+    s = deref(args[0])
+    out = []
+    i = 0
+    while i < len(s.elems):
+        c, w = decode_utf8_at(I, s.elems, i)
+        if I.decide(I.call_value(args[1], [c])):
+            out.extend(s.elems[i:i + w])
+        i += w
+    s.elems[:] = out
+    return unit()
+
+
+@model('String::drain', 'String::replace_range', 'String::split_off')
+def string_ranges(I, args, callee):
+    from .models_std import range_bounds
+    s = deref(args[0])
+    if 'split_off' in callee:
+        at = conc_index(I, args[1])
+        tail = s.elems[at:]
+        del s.elems[at:]
+        return StringV(tail)
+    st, en = range_bounds(I, args[1], len(s.elems))
+    a, b = conc_index(I, st), conc_index(I, en)
+    if a > b or b > len(s.elems):
+        raise PathEnd('panic', 'String range out of bounds')
+    removed = s.elems[a:b]
+    if 'replace_range' in callee:
+        s.elems[a:b] = list(items_of(args[2]))
+        return unit()
+    del s.elems[a:b]
+    return IterV('chars', items=removed, pos=0, end=len(removed))
+
+
+@model('str::split_at')
+def str_split_at(I, args, callee):
+    s = as_slice(args[0])
+    m = conc_index(I, args[1])
+    if m > s.length:
+        raise PathEnd('panic', 'str::split_at: mid > len')
+    from .models_std import check_char_boundary
+    check_char_boundary(I, s, m, 'str::split_at')
+    return Tup([SliceRef(s.arr, s.start, m, True), SliceRef(s.arr, s.start + m, s.length - m, True)])
+
+
+@model('str::rsplit', 'str::rsplitn', 'str::rsplit_once')
+def str_rsplit(I, args, callee):
+    from .models_std import pattern_items
+    s = as_slice(args[0])
+    if 'rsplitn' in callee:
+        kind, pat = pattern_items(I, args[2])
+        parts = split_generic(I, s, kind, pat)
+        n = conc_index(I, args[1])
+        if n and len(parts) > n:
+            head = parts[:len(parts) - n + 1]
+            first = SliceRef(s.arr, head[0].start, head[-1].start + head[-1].length - head[0].start, True)
+            parts = [first] + parts[len(parts) - n + 1:]
+        return IterV('list', items=parts[::-1], pos=0)
+    kind, pat = pattern_items(I, args[1])
+    parts = split_generic(I, s, kind, pat)
+    if 'rsplit_once' in callee:
+        if len(parts) < 2:
+            return none()
+        last = parts[-1]
+        first = SliceRef(s.arr, s.start, parts[-2].start + parts[-2].length - s.start, True)
+        return some(Tup([first, last]))
+    return IterV('list', items=parts[::-1], pos=0)
+
+
+@model('str::matches', 'str::match_indices')
+def str_matches(I, args, callee):
+    from .models_std import pattern_items, match_at
+    s = as_slice(args[0])
+    items = s.items()
+    kind, pat = pattern_items(I, args[1])
+    out = []
+    i = 0
+    while i < len(items):
+        c, w = match_at(I, items, i, kind, pat)
+        if w and I.decide(c):
+            sl = SliceRef(s.arr, s.start + i, w, True)
+            out.append(Tup([i, sl]) if 'indices' in callee else sl)
+            i += w
+        else:
+            cc, w2 = decode_utf8_at(I, items, i)
+            i += w2
+    return IterV('list', items=out, pos=0)
+
+
+@model('char::is_control', 'char::is_ascii_control')
+def char_is_control(I, args, callee):
+    c = deref1(args[0])
+    return sym_or(in_range(I, c, 0, 0x1F), in_range(I, c, 0x7F, 0x9F if 'ascii' not in callee else 0x7F))
+
+
+@model('char::is_uppercase', 'char::is_lowercase')
+def char_is_case(I, args, callee):
+    c = deref1(args[0])
+    if type(c) is not Sym:
+        return chr(c).isupper() if 'upper' in callee else chr(c).islower()
+    if not I.decide(Sym(z3.ULT(c.e, z3.BitVecVal(0x80, c.e.size())))):
+        raise Unmodelled('unicode case class of symbolic non-ASCII char')
+    return in_range(I, c, 0x41, 0x5A) if 'upper' in callee else in_range(I, c, 0x61, 0x7A)
+
+
+@model('int::checked_div', 'int::checked_rem', 'int::wrapping_div', 'int::wrapping_rem')
+def int_checked_div(I, args, callee):
+    from .models_std import _int_ty_from_callee
+    ty = _int_ty_from_callee(callee)
+    a, b = args
+    if I.decide(sym_eq(I, b, 0, INT_TYPES[ty][0])):
+        if 'checked' in callee:
+            return none()
+        raise PathEnd('panic', 'division by zero')
+    r = I.binop('Div' if 'div' in callee else 'Rem', a, b, ty)
+    return some(r) if 'checked' in callee else r
+
+
+@model('int::swap_bytes', 'int::to_be', 'int::from_be', 'int::to_le', 'int::from_le')
+def int_swap_bytes(I, args, callee):
+    from .models_std import _int_ty_from_callee
+    ty = _int_ty_from_callee(callee)
+    bits, signed = INT_TYPES[ty]
+    v = args[0]
+    if callee.rstrip('>').endswith(('to_le', 'from_le')):
+        return v
+    n = bits // 8
+    if type(v) is Sym:
+        return Sym(z3.Concat(*[z3.Extract(8 * i + 7, 8 * i, v.e) for i in range(n)])) if n > 1 else v
+    u = v & ((1 << bits) - 1)
+    r = int.from_bytes(u.to_bytes(n, 'little'), 'big')
+    return wrap(r, bits, signed)
+
+
+@model('Iterator::try_for_each', 'Iterator::try_fold')
+def iter_try(I, args, callee):
+    if 'try_fold' in callee:
+        acc = args[1]
+        f = args[2]
+    else:
+        acc = unit()
+        f = args[1]
+    while True:
+        okk, v = iter_next(I, args[0])
+        if not okk:
+            return ok(acc) if True else acc
+        r = I.call_value(f, [acc, v] if 'try_fold' in callee else [v])
+        if type(r) is Adt and r.variant in ('Err', 'None', 'Break'):
+            return r
+        if type(r) is Adt and r.variant in ('Ok', 'Some', 'Continue'):
+            acc = r.fields[0] if r.fields else unit()
+
+
+@model('Option::inspect', 'Result::inspect', 'Result::inspect_err')
+def opt_inspect(I, args, callee):
+    o = args[0]
+    want = 'Err' if 'inspect_err' in callee else ('Some' if o.name == 'Option' else 'Ok')
+    if o.variant == want:
+        I.call_value(args[1], [Ref(o.fields, 0)])
+    return o
+
+
+@model('Option::unzip')
+def opt_unzip(I, args, callee):
+    o = args[0]
+    if o.variant == 'Some':
+        return Tup([some(o.fields[0].fields[0]), some(o.fields[0].fields[1])])
+    return Tup([none(), none()])
+
+
+@model('Vec::concat', '[]::concat')
+def vec_concat(I, args, callee):
+    parts = items_of(args[0])
+    out = []
+    is_str = False
+    for p in parts:
+        s = as_slice(p)
+        is_str = is_str or s.is_str
+        out.extend(s.items())
+    return StringV(out) if is_str else VecV(out)
